@@ -256,7 +256,7 @@ type c16WireScenario struct {
 
 func c16GenWire(t *rapid.T) c16WireScenario {
 	s := c16WireScenario{}
-	s.Pool = c16GenPool(t, 1, 3, 12)
+	s.Pool = c16GenPool(t, 1, 3, c16MaxTags)
 	nr := rapid.IntRange(1, vt.Scale(5, 8)).Draw(t, "nreq")
 	for i := 0; i < nr; i++ {
 		s.Reqs = append(s.Reqs, c16WireReq{
